@@ -87,7 +87,7 @@ def le(bs):
     if not any(is_sym(b) for b in bs): return int.from_bytes(bytes(bs), 'little')
     return simp(z3.Concat(*[bv(b, 8) for b in reversed(bs)]))
 
-def flat_check(E, name, fn, spec, impl_outcome, ref_fn, assume, inputs, key_fn=None):
+def flat_check(E, name, fn, spec, impl_outcome, ref_fn, assume, inputs, key_fn=None, ground=None):
     """impl_outcome(E, f, ret, outs) -> structure"""
     import sesslib
     runs = spec_engine(E, fn, spec, assume)
@@ -95,4 +95,4 @@ def flat_check(E, name, fn, spec, impl_outcome, ref_fn, assume, inputs, key_fn=N
     def io(f):
         _, ret, outs = m[id(f)]
         return impl_outcome(E, f, ret, outs)
-    return sesslib.diff_paths(E, name, finals, io, ref_fn, assume, inputs, key_fn)
+    return sesslib.diff_paths(E, name, finals, io, ref_fn, assume, inputs, key_fn, ground=ground)
